@@ -133,6 +133,7 @@ def check(run):
         run.check(ok, 'D4', 'Boc.deserialize_cell[stored hashes, large cell]' if not ok else f'stored-hashes-large[mask={mask:03b},{nbits}b,{nrefs}r]',
                   f'{nbits}-bit cell with {nrefs} references, stored hashes, level mask {mask:03b}: {why}', wc, witness=dict(mask=mask, boc=raw2.hex()[:400]))
         run.evaluations += 1
+    stored_hash_scenarios(run, prog, 'D4', dags, wc)
     for nb in (0, 1, 7, 8, 9, 15, 16, 1016, 1023):
         bits = bocrun.bits_of('tag', nb)
         # worst case for tag stripping: data ending in zeros
@@ -269,3 +270,42 @@ def small_scope(run, prog, where, max_n):
             run.ok('D1', f'small:{tag}{list(opt)}')
     for tag, opt, st, detail in bad[:3]:
         run.fail('D1', 'Boc.deserialize[small-scope DAG]', f'{tag} with options {opt}: {detail}  ({len(bad)} of {len(res)} small-scope cases fail)', where, witness=dict(dag=tag, opt=[str(o) for o in opt]))
+
+
+def encode_all_with_bogus_hashes(root):
+    """every cell of the DAG serialised with the with-hashes flag and arbitrary (wrong) stored hash/depth values"""
+    import hashlib
+    cells = bocspec.topo([root], 'dfs')
+    index_of = {id(c): i for i, c in enumerate(cells)}
+    payload = b''
+    for ci, c in enumerate(cells):
+        mask = c.mask if hasattr(c, 'mask') else 0
+        k = bin(mask).count('1') + 1
+        ser = bytes([c.d1() | 16, c.d2()])
+        ser += b''.join(hashlib.sha256(b'bogus' + bytes([ci, i])).digest() for i in range(k))
+        ser += b''.join(bytes([0x7f, 0x7f]) for _ in range(k))
+        ser += c.data_bytes() + bytes(index_of[id(r)] for r in c.refs)
+        payload += ser
+    n = len(cells)
+    off = 2 if len(payload) > 255 else 1
+    return bocspec.MAGIC['generic'] + bytes([1, off]) + bytes([n, 1, 0]) + len(payload).to_bytes(off, 'big') + bytes([0]) + payload
+
+
+def stored_hash_scenarios(run, prog, rule, dags, wc):
+    # exotic cells carrying stored hashes, and: stored hashes are never trusted - the parsed cell's hash is the one computed from its content
+    for name in ('merkle-proof', 'ordinary-over-pruned', 'diamond'):
+        roots = dags[name]
+        raw = encode_all_with_bogus_hashes(roots[0])
+        tag = f'{name}[every cell with stored (bogus) hashes]'
+        try:
+            it, res = parse(prog, raw)
+            got = res.items[0] if isinstance(res, ListV) and res.items else None
+            same = got is not None and bocrun.ckey(it, got) == bocrun.skey(roots[0])
+            ref_cell = bocrun.build(it, roots[0])
+            honest = got is not None and repr(got.attrs.get('_hash')) == repr(ref_cell.attrs.get('_hash')) and repr(got.attrs.get('_depths')) == repr(ref_cell.attrs.get('_depths'))
+            ok = same and honest
+            why = f'same cells (types, data, references): {same}; hash and depth computed from the content, not taken from the stored values: {honest}'
+        except RaiseEx as e:
+            ok, why = False, f'rejected: {e}'
+        run.check(ok, rule, 'Boc.deserialize_cell[stored hashes, exotic / trust]' if not ok else f'stored-hashes-exotic[{name}]', f'{tag}: {why}', wc, witness=dict(boc=raw.hex()[:400]))
+        run.evaluations += 1
